@@ -19,6 +19,25 @@ func obsFor(cfg Config) ObsOpts {
 	return ObsOpts{KV: true, KVScans: true}
 }
 
+// obsForCase is obsFor plus the deviations of recorded findings that depend on the history.
+func obsForCase(c Case, st *Stats) ObsOpts {
+	oo := obsFor(c.Cfg)
+	if c.Cfg.Mode == 0 && Known("c15-merge-forgets-emptied-set-keys") {
+		for _, s := range c.Steps {
+			if s.K == "merge" {
+				// known finding: after Merge and a reopen (or recovery) a set key whose members were all removed no
+				// longer exists; SHasKey is left out of the observation of histories that call Merge
+				oo.NoSetKeyExistence = true
+				if st != nil {
+					st.Deviate("c15-merge-forgets-emptied-set-keys")
+				}
+				break
+			}
+		}
+	}
+	return oo
+}
+
 func txShape(st Step) (multiStruct, moveOrPop, sameListTwice bool) {
 	structs := map[string]bool{}
 	listKeys := map[string]int{}
